@@ -365,3 +365,12 @@ func PreludeRnd() string {
 (assert (forall ((n Int)) (! (= (rnd (to_real n)) n) :pattern ((rnd (to_real n))))))
 `
 }
+
+// PreludeParseFloat: strconv.ParseFloat(s, 64) as a function of the string: pfloat_ok(s) iff it succeeds,
+// pfloat(s) its value; decimal integer strings parse to their integer.
+func PreludeParseFloat() string {
+	return `(declare-fun pfloat (Str) Real)
+(declare-fun pfloat_ok (Str) Bool)
+(assert (forall ((s Str)) (! (=> (atoi_ok s) (and (pfloat_ok s) (= (pfloat s) (to_real (atoi s))))) :pattern ((pfloat s)) :pattern ((pfloat_ok s)))))
+`
+}
